@@ -252,11 +252,18 @@ PROPS = {
         judge=["C08_RightEdge", "C08_Proportional", "C08_HeaderAligned", "C08_SingleCell"], known={},
         model=None,
         gen=dict(
-            quick=[dict(consts=C(NSet={3}, Heights={1}, NrowSet={3, 30}, Strategies=ALL_STRAT, LevelSet={1, 2}, NewPageSet=NP, PbRowSet=PR,
+            quick=[# wide tables (rounding must not accumulate over many columns): every width pattern, exhaustively
+                   dict(consts=C(NSet={2}, Heights={1}, NrowSet={30}, Strategies={"plain", "pageby"}, LevelSet={1}, HdrSet={"default", "explicit"},
+                                 FootSet={"none", "table"}, NDataSet={7, 8, 9, 12}, RelWSet={"equal", "asc", "mixed", "tenths"}, HdrWSet=NP,
+                                 PaperSet={"letter", "landscape", "custom"})),
+                   dict(consts=C(NSet={3}, Heights={1}, NrowSet={3, 30}, Strategies=ALL_STRAT, LevelSet={1, 2}, NewPageSet=NP, PbRowSet=PR,
                                  HdrSet={"none", "default", "explicit", "explicit2"}, FootSet={"none", "table"}, SrcSet={"none", "table"},
                                  NDataSet={1, 2, 3, 4, 6}, GPosSet={"first", "middle", "last", "split"}, RelWSet={"equal", "asc", "mixed", "tenths"},
                                  HdrWSet=NP, HdrTupleSet=NP, PaperSet={"letter", "landscape", "custom"}), simulate=1500)],
-            thorough=[dict(consts=C(NSet={3, 9}, Heights={1}, NrowSet={3, 30}, Strategies=ALL_STRAT, LevelSet={1, 2, 3}, NewPageSet=NP, PbRowSet=PR,
+            thorough=[dict(consts=C(NSet={2}, Heights={1}, NrowSet={30}, Strategies={"plain", "pageby"}, LevelSet={1}, HdrSet={"default", "explicit"},
+                                    FootSet={"none", "table"}, NDataSet={7, 8, 9, 10, 11, 12}, RelWSet={"equal", "asc", "mixed", "tenths"}, HdrWSet=NP,
+                                    PaperSet={"letter", "landscape", "a4", "custom"})),
+                      dict(consts=C(NSet={3, 9}, Heights={1}, NrowSet={3, 30}, Strategies=ALL_STRAT, LevelSet={1, 2, 3}, NewPageSet=NP, PbRowSet=PR,
                                     HdrSet={"none", "default", "explicit", "explicit2"}, FootSet={"none", "table"}, SrcSet={"none", "table"},
                                     NDataSet={1, 2, 3, 4, 6, 9, 12}, GPosSet={"first", "middle", "last", "split"},
                                     RelWSet={"equal", "asc", "mixed", "tenths"}, HdrWSet=NP, HdrTupleSet=NP,
